@@ -128,17 +128,32 @@ def cursor_rule(ctx):
     # (and counts a line break) or hands the text to a mover that does - none moves the index and the column alone (MIR field writes)
     idx_w = set(x.split("::")[-1] for x in w.get("cur_index", {}))
     line_w = set(x.split("::")[-1] for x in w.get("line", {}))
-    lonely = sorted(idx_w - line_w)
-    # a private helper that only adds to index and column is fine when every method that calls it keeps the line itself
-    for nm in list(lonely):
-        callers = set(b["root"].split("::")[-1] for b in ctx.mir.by_crate.get("glass_easel_template_compiler", [])
-                      if b["root"].startswith("parse::ParseState::") and any(sir.norm_mir_name(c["callee"]) == "parse::ParseState::" + nm for c in b["calls"]))
-        callers.discard(nm)
-        if callers and callers <= line_w:
-            lonely.remove(nm)
+    lonely = []
+    for nm in sorted(idx_w - {"new", "try_parse"}):
+        for g in [f_ for f_ in tc.fns if f_.name == nm and f_.base == "ParseState" and f_.body]:
+            pm_ = sir.parent_map(g.body)
+            for n in sir.walk(g.body, into_closures=True):
+                is_w = (n.get("k") == "assign" or (n.get("k") == "binary" and n.get("op") in ("+=", "-="))) and isinstance(n.get("l"), dict) and sir.expr_str(n["l"]).replace(" ", "") == "self.cur_index"
+                if not is_w:
+                    continue
+                blk = pm_.get(id(n))
+                while blk is not None and blk.get("k") != "block":
+                    blk = pm_.get(id(blk))
+                # the enclosing block, or - for a write inside a loop / branch - the function body
+                scopes_ = [b_ for b_ in (blk, g.body) if b_ is not None]
+                def keeps(b_):
+                    for x in sir.walk(b_, into_closures=True):
+                        if (x.get("k") == "assign" or (x.get("k") == "binary" and x.get("op") == "+=")) and isinstance(x.get("l"), dict) and sir.expr_str(x["l"]).replace(" ", "") == "self.line":
+                            return True
+                        if x.get("k") == "mcall" and sir.expr_str(x["recv"]) == "self" and x["m"] in line_w and x["m"] != nm:
+                            return True
+                    return False
+                if not keeps(scopes_[0]):
+                    lonely.append(nm)
+    lonely = sorted(set(lonely))
     obs.append(ob("C16.cursor/discipline/index-with-line", bool(idx_w) and not lonely, "parse/mod.rs",
-                  "every method that writes the byte index also maintains the line counter (%s)" % sorted(idx_w) if not lonely else "%s move(s) the byte index without ever touching the line counter" % lonely,
-                  witness=None if not lonely else "{{ a /* two\nlines */ + }}: the diagnostic is reported on the line where the comment began, past the end of that line"))
+                  "wherever a method adds to the byte index, the same block keeps the line counter (itself or through a helper that writes it): %s" % sorted(idx_w) if not lonely else "%s move(s) the byte index in a block that never touches the line counter" % lonely,
+                  witness=None if not lonely else "{{ a /* two\\nlines */ + }}: the diagnostic is reported on the line where the comment began, past the end of that line"))
     if len(movers) < 3:
         obs.append(ob("C16.floor/cursor-movers", False, "parse/mod.rs", "only %d methods move the cursor (floor 3)" % len(movers)))
     tp = [f for f in tc.fns if f.name == "try_parse" and f.base == "ParseState" and f.body]
